@@ -68,8 +68,17 @@ func c06(c *core.Ctx) {
 		for _, call := range ssax.CallsTo(f, setMax) {
 			arg := call.Common().Args[1]
 			src := limitSources(arg, cg, c.Depth)
-			ok := src[ackRecv] || src[helRecv]
-			c.Ob("C06.direction", fname(f)+"·SetMaximumBodySize(bound)", pos(c, call), ok, "bound flows from: "+srcNames(src)+" — the peer's advertised receive size is required")
+			// which field is "the receive size the peer advertised" depends on the side: the client holds the
+			// server's Acknowledge, the server (the only side that handles OpenSecureChannel *requests*) its own
+			// Acknowledge and the client's Hello
+			serverSide := f.Name() == "handleOpenSecureChannelRequest"
+			ok := src[ackRecv] && !serverSide || src[helRecv] && serverSide
+			want := "Acknowledge.ReceiveBufSize of the server's ACK"
+			if serverSide {
+				want = "Hello.ReceiveBufSize of the client"
+			}
+			// the source is part of the finding's identity: replacing one wrong bound by another is a new finding
+			c.Ob("C06.direction", fname(f)+"·SetMaximumBodySize(bound ← "+srcNames(src)+")", pos(c, call), ok, "bound flows from: "+srcNames(src)+" — required: "+want)
 		}
 	}
 	{
